@@ -96,6 +96,11 @@ func (i *interpreter) intrinsic(fr *frame, fn *ssa.Function, name string, args [
 		}
 		return nil, false
 	}
+	if i.fs != nil {
+		if f, ok := fsIntrinsics[name]; ok {
+			return f(fr, args), true
+		}
+	}
 	if f, ok := stdIntrinsics[name]; ok {
 		return f(fr, args), true
 	}
@@ -165,6 +170,11 @@ func (i *interpreter) verifIntrinsic(fr *frame, short string, args []value) (val
 	case "verifConcrete":
 		// verifConcrete(x int) int: case-split x
 		return fr.conc(args[0], "verifConcrete"), true
+	}
+	if i.fs != nil {
+		if f, ok := fsIntrinsics[short]; ok {
+			return f(fr, args), true
+		}
 	}
 	return nil, false
 }
